@@ -100,7 +100,8 @@ def run(P, rep, tier):
                        'and path facts from abstract interpretation of run_subprocess / create_tmpfile / cleanup / cc1 / main with a process model '
                        '(fork returns 0, >0 or -1; posix_spawn* returns 0 or a positive errno value and has no child side in this program; system returns -1 or a wait status; exec succeeds or fails; '
                        'wait/waitpid/wait3/wait4/waitid deliver each class of wait status as the kernel encodes it; '
-                       'exit-family calls end the path). Decides: temp files are registered for exit-time cleanup, cleanup is installed before any temp exists '
+                       'exit-family calls end the path; a signal a process sends to itself, its process group, its child or its parent (raise, kill, killpg, pthread_kill, sigqueue, tgkill) acts on the receiver '
+                       'according to the disposition the path set with signal()/sigaction(), else the default action). Decides: temp files are registered for exit-time cleanup, cleanup is installed before any temp exists '
                        'and unlinks all of them, the parent never terminates past its atexit handlers and the child never runs them, every non-zero wait status '
                        '(exit code or signal) stops the driver with a non-zero status, the user-visible output is opened only after every phase that can '
                        'fail has returned, the per-input pipeline order; for a fixed set of concrete command lines (each mode, with/without -o, multi-dot input names) '
@@ -110,6 +111,7 @@ def run(P, rep, tier):
                        'temp-name uniqueness is decided only as "names come from mkstemp".')
     rep.assumptions += ['wait status encoding of Linux/glibc (low 7 bits signal, bit 7 core, bits 8-15 exit code)',
                         'wait() returns -1 without writing the status when the caller has no child',
+                        'the driver starts with default signal dispositions; Linux signal numbers; the default action of every signal except SIGCHLD, SIGCONT, SIGURG, SIGWINCH and the stop signals terminates the process without running atexit handlers',
                         'posix_spawn/posix_spawnp report every failure to start the program (including, with glibc >= 2.24, a failed exec) as a positive errno return value, never as -1 and not through errno; '
                         'the alternative POSIX allows (child exits with 127) is covered by the wait statuses',
                         'loops over argument lists are analysed for 0..k generic iterations (k=1, main: 2)',
@@ -479,7 +481,8 @@ def _signal_installs(rep, cg, reach_main):
 
 
 def r143_r144(P, u, rep, cg, reach_main, facts):
-    rep.rule('R14.3', 'outside the forked child the process ends only through exit()/return from main (atexit handlers run); inside the child only through exec* or _exit (the child never runs the parent\'s handlers, never continues the driver)', floor=3)
+    rep.rule('R14.3', 'outside the forked child the process ends only through exit()/return from main (atexit handlers run); inside the child only through exec* or _exit (the child never runs the parent\'s handlers, never continues the driver); '
+                      'the driver is never replaced by exec and never terminated by a signal it (or its child) sends to it', floor=4)
     rep.rule('R14.4', 'on every path from process creation (fork, posix_spawn*, system) to the return the wait status is read, every non-zero status (exit code or signal) ends the driver with a non-zero status, '
                       'success continues, and a failed process creation - as that API reports it: fork/system -1, posix_spawn* a positive errno value - is fatal', floor=4)
     fork_fns = {}
@@ -685,7 +688,7 @@ def r143_r144(P, u, rep, cg, reach_main, facts):
             if sig is not None and (sig == 0 or (sig in L.SIG_DEFAULT_HARMLESS and not sig_may_install(sig))):
                 rep.ob('R14.3', key + '%s-of-non-terminating-signal' % name, True, '', where=wh)
                 continue
-            if sig is None and installs or sig is not None and sig not in L.SIG_UNBLOCKABLE and sig_may_install(sig):
+            if (sig is None and any(h != 'dfl' for (_, _, _, _, h) in installs)) or (sig is not None and sig not in L.SIG_UNBLOCKABLE and sig_may_install(sig)):
                 rep.undecided('R14.3', key + '%s-effect' % name, '%s() in %s sends the process a signal whose disposition may have been changed elsewhere in the program: effect not decided' % (name, caller), where=wh)
                 continue
             rep.ob('R14.3', key + 'kills-itself-with-%s' % name, False,
